@@ -207,3 +207,47 @@ package index
 //@   immutchk
 //@   under_construction newSegmentDeleted
 //@   requires {C04} [bitmap created here] ownfresh(newSegmentDeleted)
+
+// ---------------------------------------------------------------------------
+// C02 / C14 / C11: what is on disk when, and when a batch may be acknowledged
+// ---------------------------------------------------------------------------
+// segOnDisk[id] / snpOnDisk[epoch]: the item was completely persisted (Directory.Persist returned
+// nil, which for the file-system directory means exact content + fsync, see C13) and not removed since.
+//@ ghost var segOnDisk map[uint64]bool
+//@ ghost var snpOnDisk map[uint64]bool
+//@ ghost var rootInstalls int
+
+//@ func Directory.Persist(recv, kind, id, w, closeCh) (err)
+//@   interface
+//@   props C02 C14 C11 C03
+//@   requires [segments-before-snapshot] kind == ".snp" ==> (forall k int :: 0 <= k && k < len(ptr(Snapshot, iref(w)).segment) ==>
+//@        (ptr(Snapshot, iref(w)).segment[k].segment.persisted || segOnDisk[ptr(Snapshot, iref(w)).segment[k].id]))
+//@   modifies segOnDisk, snpOnDisk
+//@   ensures err != nil ==> segOnDisk == old(segOnDisk) && snpOnDisk == old(snpOnDisk)
+//@   ensures err == nil && kind == ".seg" ==> segOnDisk == old(segOnDisk)[id := true] && snpOnDisk == old(snpOnDisk)
+//@   ensures err == nil && kind == ".snp" ==> snpOnDisk == old(snpOnDisk)[id := true] && segOnDisk == old(segOnDisk)
+//@   ensures err == nil && kind != ".seg" && kind != ".snp" ==> segOnDisk == old(segOnDisk) && snpOnDisk == old(snpOnDisk)
+
+//@ func Directory.Remove(recv, kind, id) (err)
+//@   interface
+//@   props C02 C14 C11 C03
+//@   modifies segOnDisk, snpOnDisk
+//@   ensures kind == ".seg" ==> snpOnDisk == old(snpOnDisk) && (forall j uint64 :: j != id ==> segOnDisk[j] == old(segOnDisk)[j])
+//@   ensures kind == ".snp" ==> segOnDisk == old(segOnDisk) && (forall j uint64 :: j != id ==> snpOnDisk[j] == old(snpOnDisk)[j])
+
+//@ func DeletionPolicy.Commit(recv, snapshot)
+//@   interface
+//@   props C02 C14 C11 C03
+
+// persistSnapshotDirect: every segment is on disk before the snapshot that names it is written; the
+// deletion policy learns about the snapshot only after it is on disk; success means both are there.
+//@ func Writer.persistSnapshotDirect
+//@   props C02 C14 C11
+//@   heap_wf
+//@   requires snapshot != nil
+//@   ensures [durable-on-success] err == nil ==> snpOnDisk[snapshot.epoch]
+//@   ensures [segments-durable-on-success] err == nil ==> (forall k int :: 0 <= k && k < len(snapshot.segment) ==> (snapshot.segment[k].segment.persisted || segOnDisk[snapshot.segment[k].id]))
+//@   at call Commit: assert [commit-after-snapshot-on-disk] snpOnDisk[snapshot.epoch]
+//@   loop 1
+//@     invariant rangeindex < len(snapshot.segment)
+//@     invariant forall k int :: 0 <= k && k <= rangeindex ==> (snapshot.segment[k].segment.persisted || segOnDisk[snapshot.segment[k].id])
